@@ -46,8 +46,9 @@ def fdict(f):
 
 def run_check(prop, repo, tier, jobs, seed, out=sys.stdout):
     t0 = time.time()
-    ev_path = os.path.join(VERIF, 'evidence', '%s.json' % prop)
-    replay_path = os.path.join(VERIF, 'evidence', '%s.replay.json' % prop)
+    ev_dir = os.environ.get('PWA_EVIDENCE_DIR') or os.path.join(VERIF, 'evidence')
+    ev_path = os.path.join(ev_dir, '%s.json' % prop)
+    replay_path = os.path.join(ev_dir, '%s.replay.json' % prop)
     os.makedirs(os.path.dirname(ev_path), exist_ok=True)
     for p in (replay_path,):
         if os.path.exists(p):
